@@ -178,16 +178,18 @@ def adjoint_rule(chk, src):
     for the adjoint), labels and total charge negated for the adjoint"""
     from ..syminterp import SymInterp, Sym, OpenSym
 
-    class Site(Sym):
-        def __init__(self, i, ops=()):
-            super().__init__(f"site{i}" + "".join("." + o for o in ops))
-            self.i, self.ops = i, tuple(ops)
+    from .. import ntensor as NTm
+    from ..ntensor import NT, Leg
 
-        def conj(self):
-            return Site(self.i, self.ops + ("conj",))
+    def Site(i):
+        """site tensor (left bond, row, column, right bond) with distinct sizes"""
+        return NT(f"site{i}", [Leg(("S", i, "l"), 2 + i), Leg(("S", i, "up"), 11), Leg(("S", i, "down"), 13), Leg(("S", i, "r"), 3 + i)])
 
-        def copy(self):
-            return self
+    def adjoint_of(t, i):
+        return isinstance(t, NT) and t.keys() == [("S", i, "l"), ("S", i, "down"), ("S", i, "up"), ("S", i, "r")] and all(l.conj for l in t.legs)
+
+    def conj_of(t, i):
+        return isinstance(t, NT) and t.keys() == [("S", i, "l"), ("S", i, "up"), ("S", i, "down"), ("S", i, "r")] and all(l.conj for l in t.legs)
 
     class Q(Sym):
         def __init__(self, name, sign=1):
@@ -197,8 +199,6 @@ def adjoint_rule(chk, src):
         def __neg__(self):
             return Q(self.base, -self.sign)
 
-    def moveaxis(t, a, b):
-        return Site(t.i, t.ops + (f"move{tuple(a)}->{tuple(b)}",))
     N = 3
 
     class MPSym(Sym):
@@ -226,24 +226,24 @@ def adjoint_rule(chk, src):
             return MPSym("conj(" + self._name + ")", {i: s_.conj() for i, s_ in self.sites.items()})
     ct = src.func(MPO, "Mpo.conj_trans")
     me = MPSym("O", {i: Site(i) for i in range(N)})
-    it = SymInterp(src, None, {"moveaxis": moveaxis, "np": OpenSym("np", array=lambda x: x)})
+    npx = NTm.np_namespace()
+    it = SymInterp(src, None, {"moveaxis": NTm.moveaxis, "np": npx, "xp": npx, "transpose": NTm.transpose, "einsum": NTm.einsum})
     out = it.call_function(ct, [me])
     probs = []
     for i in range(N):
         s_ = out.sites.get(i) if isinstance(out, MPSym) else None
-        ops = sorted(getattr(s_, "ops", ("missing",)))
-        if getattr(s_, "i", None) != i or ops != ["conj", "move(1, 2)->(2, 1)"]:
+        if not adjoint_of(s_, i):
             probs.append(f"site {i}: {s_!r}")
     okq = isinstance(out, MPSym) and all(getattr(x, "sign", 1) == -1 for row in out.qn for x in row) and getattr(out.qntot, "sign", 1) == -1
     chk.ob("adjoint", "Mpo.conj_trans: site tensors conjugated with row / column exchanged", not probs and isinstance(out, MPSym) and out is not me, ct.where, probs or "every site = conj(swap rows/columns)",
-           "new[i] = conj(moveaxis(self[i], (1, 2), (2, 1)))", line=ct.node.lineno,
+           "axes (left, column, row, right) of the conjugated site", line=ct.node.lineno,
            detail="the adjoint of an operator is the conjugate transpose: without the conjugation it is the plain transpose, which differs for every operator with complex entries (complex hopping, "
                   "i * operator); real operators do not see the difference: " + (probs[0] if probs else ""))
     chk.ob("adjoint", "Mpo.conj_trans: bond labels and total charge negated", okq, ct.where, {"qn": [repr(x) for x in out.qn[1]] if isinstance(out, MPSym) else None, "qntot": repr(getattr(out, "qntot", None))}, "all negated", line=ct.node.lineno)
     cj = src.func(MP, "MatrixProduct.conj")
     me2 = MPSym("A", {i: Site(i) for i in range(N)})
     out2 = SymInterp(src, None, {}).call_function(cj, [me2])
-    ok2 = isinstance(out2, MPSym) and out2 is not me2 and all(getattr(out2.sites.get(i), "ops", None) == ("conj",) and out2.sites[i].i == i for i in range(N)) and all(s_.ops == () for s_ in me2.sites.values())
+    ok2 = isinstance(out2, MPSym) and out2 is not me2 and all(conj_of(out2.sites.get(i), i) for i in range(N)) and all(not any(l.conj for l in s_.legs) for s_ in me2.sites.values())
     chk.ob("adjoint", "MatrixProduct.conj: every site conjugated, source untouched", ok2, cj.where, {i: repr(v) for i, v in getattr(out2, "sites", {}).items()}, "new[i] = self[i].conj()", line=cj.node.lineno)
 
 
